@@ -358,8 +358,21 @@ class SpecMixin:
                 else:
                     eq = t == self.to_val(d)
                 self.spec_side.append(eq)
-                for ftxt in sf.facts:
-                    self.spec_side.append(self.truthy(self.eval(parse_expr(ftxt), fr)))
             finally:
                 self._unfold_depth = depth
+        if sf.facts and not getattr(self, "_in_facts", False):
+            # facts about F(args) hold at every application (also under quantifiers)
+            self._in_facts = True
+            saved_depth = getattr(self, "_unfold_depth", 0)
+            self._unfold_depth = 99  # no unfolding while stating the facts
+            try:
+                fr = Frame()
+                for (pn, pt), a in zip(sf.params, args):
+                    fr.vars[pn] = a
+                for ftxt in sf.facts:
+                    if self.spec_side is not None:
+                        self.spec_side.append(self.truthy(self.eval(parse_expr(ftxt), fr)))
+            finally:
+                self._in_facts = False
+                self._unfold_depth = saved_depth
         return res
